@@ -253,23 +253,29 @@ end Call
 section New
 variable {T V : Type} (inst : T → V → Bool)
 
-/-- what a constructor call ends in: a value, a reported error (no dispatch matched, or the body raised one) -/
+/-- what a constructor call ends in: a value, a reported error (no dispatch matched, or the body raised one), or a Go
+    runtime fault inside the body (failed type assertion, index out of range) -/
 inductive CtorResult (V : Type) where
   | value (v : V)
   | reported (code : String)
+  | fault
   deriving Repr
 
 /-- the receiver of `new`, after resolution: a type without constructor, a type with one (`Creatable.Constructor` or the
-    constructor loaded by the type's name), or `Init[T]` (the only `Newable`), whose `New` runs T's constructor -/
+    constructor loaded by the type's name), or `Init[T]` (the only `Newable`), whose `New` runs T's constructor (`f` is
+    `InitType.create`: the way the arguments are handed to that constructor); `Init[T]` for a T without constructor
+    (`Resolve` raises CTOR_NOT_FOUND) and the default `Init` (no contained type) -/
 inductive Recv (T V : Type) where
   | noCtor (t : T)
   | ctor (t : T) (f : List V → CtorResult V)
   | init (contained : T) (f : List V → CtorResult V)
   | initNoCtor
+  | initDefault
 
 inductive NewOutcome (V : Type) where
   | value (v : V)
   | reported (code : String)
+  | fault
   deriving Repr
 
 /-- `px.AssertInstance("new", typ, r)` -/
@@ -278,13 +284,16 @@ def assertInstance (t : T) (r : V) : NewOutcome V :=
 
 def newInstance : Recv T V → List V → NewOutcome V
   | .noCtor _, _ => .reported "INSTANCE_DOES_NOT_RESPOND"
-  | .initNoCtor, _ => .reported "INSTANCE_DOES_NOT_RESPOND"
+  | .initNoCtor, _ => .reported "CTOR_NOT_FOUND"
+  | .initDefault, _ => .reported "INSTANCE_DOES_NOT_RESPOND"
   | .ctor t f, args => match f args with
     | .value r => assertInstance inst t r
     | .reported c => .reported c
+    | .fault => .fault
   | .init t f, args => match f args with
     | .value r => assertInstance inst t r
     | .reported c => .reported c
+    | .fault => .fault
 
 end New
 
@@ -298,10 +307,12 @@ inductive Ty where
   | int (lo hi : Option Int)
   | str (lo : Nat) (hi : Option Nat)
   | enum (vs : List String)
-  | arr (e : Ty)
+  | enumci (vs : List String)     -- case-insensitive Enum (values kept in lower case)
+  | intPat                        -- Pattern[/IntegerPattern/]
+  | arr (e : Ty) (lo : Nat) (hi : Option Nat)
   | var (ts : List Ty)
   | opt (t : Ty)
-  | any | undef | bool | never
+  | any | undef | bool | default | never
   deriving Repr, Inhabited
 
 inductive Val where
@@ -309,27 +320,60 @@ inductive Val where
   | str (s : String)
   | bool (b : Bool)
   | undef
+  | default
   | arr (vs : List Val)
   deriving Repr, Inhabited
 
 def inRange (lo hi : Option Int) (n : Int) : Bool :=
   (match lo with | none => true | some l => decide (l ≤ n)) && (match hi with | none => true | some h => decide (n ≤ h))
 
+def lowerAscii (s : String) : String := String.ofList (s.toList.map Char.toLower)
+
+def isDigit (c : Char) : Bool := '0' ≤ c && c ≤ '9'
+def isHex (c : Char) : Bool := isDigit c || ('a' ≤ c && c ≤ 'f') || ('A' ≤ c && c ≤ 'F')
+def isOct (c : Char) : Bool := '0' ≤ c && c ≤ '7'
+def isBin (c : Char) : Bool := c = '0' || c = '1'
+/-- RE2 `\s` -/
+def isSpace (c : Char) : Bool := c = ' ' || c = '\t' || c = '\n' || c = '\x0c' || c = '\r'
+
+/-- the alternatives after the sign prefix: `0 | [1-9]\d* | 0[xX]hex+ | 0[0-7]+ | 0[bB][01]+` -/
+def intBody : List Char → Bool
+  | ['0'] => true
+  | '0' :: x :: rest =>
+    if x = 'x' || x = 'X' then !rest.isEmpty && rest.all isHex
+    else if x = 'b' || x = 'B' then !rest.isEmpty && rest.all isBin
+    else (x :: rest).all isOct
+  | c :: rest => '1' ≤ c && c ≤ '9' && rest.all isDigit
+  | [] => false
+
+/-- `types.IntegerPattern` = `\A[+-]?\s*(?:…)\z` -/
+def intPattern (cs : List Char) : Bool :=
+  let cs := match cs with
+    | c :: rest => if c = '+' || c = '-' then rest else cs
+    | [] => cs
+  intBody (cs.dropWhile isSpace)
+
 mutual
 /-- `px.IsInstance` on the alphabet: IntegerType.IsInstance (bounds), scStringType.IsInstance (character count),
     EnumType.IsInstance (case-sensitive member; no values = any string), ArrayType (every element), VariantType (some
-    member), OptionalType (undef or the contained type), Any, Undef, Boolean, unresolved TypeReference (nothing).
+    member), OptionalType (undef or the contained type), Any, Undef, Boolean, Default, unresolved TypeReference (nothing);
+    for the constructors' own parameter types also the case-insensitive Enum and Pattern[/IntegerPattern/].
     Structural recursion on the type (so that closed instances reduce by `decide`). -/
 def inst : Ty → Val → Bool
   | .int lo hi, v => match v with | .int n => inRange lo hi n | _ => false
   | .str lo hi, v => match v with | .str s => decide (lo ≤ s.length) && leMax s.length hi | _ => false
   | .enum vs, v => match v with | .str s => vs.isEmpty || vs.contains s | _ => false
-  | .arr e, v => match v with | .arr vs => vs.all (fun x => inst e x) | _ => false
+  | .enumci vs, v => match v with | .str s => vs.contains (lowerAscii s) | _ => false
+  | .intPat, v => match v with | .str s => intPattern s.toList | _ => false
+  | .arr e lo hi, v => match v with
+    | .arr vs => decide (lo ≤ vs.length) && leMax vs.length hi && vs.all (fun x => inst e x)
+    | _ => false
   | .var ts, v => instAny ts v
   | .opt t, v => match v with | .undef => true | _ => inst t v
   | .any, _ => true
   | .undef, v => match v with | .undef => true | _ => false
   | .bool, v => match v with | .bool _ => true | _ => false
+  | .default, v => match v with | .default => true | _ => false
   | .never, _ => false
 def instAny : List Ty → Val → Bool
   | [], _ => false
